@@ -1,5 +1,5 @@
 /-
-Specification (C15, C20 share, C08 share): the spherical Blake problem of
+Specification (C15, C20 share): the spherical Blake problem of
 `exactpack/solvers/blake`.
 
 Material.  `exactpack/solvers/blake/blake.py` (class docstring): "There are six
@@ -124,22 +124,6 @@ def waveRes (u : Field) (cL2 r t : ℝ) : ℝ :=
 /-- isotropic linear elasticity in spherical symmetry, T = λ tr(E) 1 + 2G E -/
 def hookeRR (lam G err eqq : ℝ) : ℝ := lam * (err + 2 * eqq) + 2 * G * err
 def hookeQQ (lam G err eqq : ℝ) : ℝ := lam * (err + 2 * eqq) + 2 * G * eqq
-
-/-! ### dimensional analysis (C08) -/
-
-/-- a change of units of mass, length and time -/
-structure Units where
-  M : ℝ
-  L : ℝ
-  T : ℝ
-  hM : 0 < M
-  hL : 0 < L
-  hT : 0 < T
-
-/-- factor of a pressure / modulus:  M L⁻¹ T⁻² -/
-def Units.pressure (σ : Units) : ℝ := σ.M / (σ.L * σ.T ^ 2)
-/-- factor of a mass density:  M L⁻³ -/
-def Units.density (σ : Units) : ℝ := σ.M / σ.L ^ 3
 
 end
 
